@@ -16,7 +16,9 @@ type Sticky struct {
 	Marked   bool
 }
 
-func NewSticky() *Sticky { return &Sticky{status: map[string]StatusInfo{}, majority: map[string]bool{}} }
+func NewSticky() *Sticky {
+	return &Sticky{status: map[string]StatusInfo{}, majority: map[string]bool{}}
+}
 
 func (s *Sticky) On(e *Event) []Violation {
 	switch e.Kind {
